@@ -28,6 +28,10 @@ pub struct Case {
     /// a long seed-expanded active life fed before `prefix`: (seed, length)
     #[serde(default)]
     pub gen_prefix: Option<(u64, usize)>,
+    /// `reset()` is called between the earlier activity and the flat stretch: the stretch then is "at the start of
+    /// a stream" on a used instance, and t, M count from there
+    #[serde(default)]
+    pub reset_before_flat: bool,
 }
 
 /// how many identical flat bars make the window of this kind degenerate
@@ -56,6 +60,8 @@ pub fn check(c: &Case, ctx: &mut Ctx) -> Result<(), Failure> {
     let glen = c.gen_prefix.map(|g| g.1).unwrap_or(0);
     let mut gen = c.gen_prefix.map(|g| crate::props::c13::Gen::new(g.0, 0, c.level.0.max(1e-3), 5));
     let total = glen + c.prefix.len() + c.zv.len() + c.flat_len;
+    let flat_start = glen + c.prefix.len() + c.zv.len();
+    let mut t_base = 0usize;
     let mut big = 0.0f64;
     let mut run_equal = 0usize; // length of the current run of identical flat bars
     let mut zero_flow_run = 0usize; // consecutive moves without money flow
@@ -83,9 +89,18 @@ pub fn check(c: &Case, ctx: &mut Ctx) -> Result<(), Failure> {
             }
             f
         };
+        if c.reset_before_flat && i > 0 && i == flat_start {
+            ind.reset();
+            t_base = i;
+            big = 0.0;
+            run_equal = 0;
+            zero_flow_run = 0;
+            last = None;
+            ctx.label("reset_before_flat_stretch");
+        }
         crate::tele::step(&mut ind, &c.cfg);
         let out = if scalar { ind.next_scalar(bar.c) } else { ind.next_bar(&bar) };
-        let t = i + 1;
+        let t = i + 1 - t_base;
         big = big.max(bar.max_abs_price());
         let is_flat = bar.h == bar.l && bar.l == bar.c;
         // numeric equality: +0.0 and -0.0 are the same price
@@ -252,7 +267,7 @@ fn strategy(thorough: bool) -> BoxedStrategy<Case> {
                     b.c = f(b.c);
                 }
             }
-            Case { cfg, scalar, prefix, zv, level: X(level), vol: X(vol), flat_len, neg_zero_mask, gen_prefix: None }
+            Case { cfg, scalar, prefix, zv, level: X(level), vol: X(vol), flat_len, neg_zero_mask, gen_prefix: None, reset_before_flat: (neg_zero_mask >> 11) % 5 == 0 }
         })
         .boxed()
 }
@@ -289,7 +304,29 @@ pub fn run(g: &mut Global) {
             let kind = ALL_KINDS[(r / 8) as usize];
             let nst = n + 6;
             let flat_len = stretch(n, sj % nst);
-            Case { cfg: cfg_small(kind, n), scalar, prefix: fixed_prefix(pc, n), zv: vec![], level: X(level), vol: X(250.0), flat_len, neg_zero_mask: 0, gen_prefix: None }
+            Case { cfg: cfg_small(kind, n), scalar, prefix: fixed_prefix(pc, n), zv: vec![], level: X(level), vol: X(250.0), flat_len, neg_zero_mask: 0, gen_prefix: None, reset_before_flat: false }
+        },
+        &check,
+    );
+    // the same grid with reset() between the activity and the flat stretch (three levels): whatever reset() leaves
+    // in a slot, a cursor or a cached extreme meets a window that is flat from its first input
+    g.exhaustive(
+        "flat_after_reset",
+        22 * 8 * 5 * 3 * ST * 2,
+        &move |i| {
+            let scalar = i % 2 == 0;
+            let r = i / 2;
+            let sj = (r % ST) as usize;
+            let r = r / ST;
+            let level = [LEVELS[0], LEVELS[2], LEVELS[4]][(r % 3) as usize];
+            let r = r / 3;
+            let pc = (r % 5) as usize;
+            let r = r / 5;
+            let n = (r % 8) as usize + 1;
+            let kind = ALL_KINDS[(r / 8) as usize];
+            let nst = n + 6;
+            let flat_len = stretch(n, sj % nst);
+            Case { cfg: cfg_small(kind, n), scalar, prefix: fixed_prefix(pc, n), zv: vec![], level: X(level), vol: X(250.0), flat_len, neg_zero_mask: 0, gen_prefix: None, reset_before_flat: true }
         },
         &check,
     );
@@ -307,7 +344,7 @@ pub fn run(g: &mut Global) {
             let kind = kinds[(r / 6) as usize % kinds.len()];
             // repeat the 6-bit pattern so that longer stretches stay mixed
             let m6 = mask | (mask << 6) | (mask << 12) | (mask << 18) | (mask << 24) | (mask << 30) | (mask << 36);
-            Case { cfg: cfg_small(kind, n), scalar: i % 2 == 0, prefix: fixed_prefix(pc, n), zv: vec![], level: X(0.0), vol: X(250.0), flat_len: 2 * n + 6, neg_zero_mask: m6, gen_prefix: None }
+            Case { cfg: cfg_small(kind, n), scalar: i % 2 == 0, prefix: fixed_prefix(pc, n), zv: vec![], level: X(0.0), vol: X(250.0), flat_len: 2 * n + 6, neg_zero_mask: m6, gen_prefix: None, reset_before_flat: false }
         },
         &check,
     );
@@ -328,7 +365,7 @@ pub fn run(g: &mut Global) {
             // the flat stretch starts n + 1 + off inputs before the 65 536th input
             let glen = 65_536 - (n + 1 + 2 * off);
             let mut s = seed ^ (i + 5).wrapping_mul(0x9E3779B97F4A7C15);
-            Case { cfg: cfg_small(kind, n), scalar: i % 2 == 0, prefix: vec![], zv: vec![], level: X(level), vol: X(100.0), flat_len: 3 * n + 8, neg_zero_mask: 0, gen_prefix: Some((splitmix(&mut s), glen)) }
+            Case { cfg: cfg_small(kind, n), scalar: i % 2 == 0, prefix: vec![], zv: vec![], level: X(level), vol: X(100.0), flat_len: 3 * n + 8, neg_zero_mask: 0, gen_prefix: Some((splitmix(&mut s), glen)), reset_before_flat: false }
         },
         &check,
     );
@@ -357,7 +394,7 @@ pub fn run(g: &mut Global) {
                 prefix.push(RawBar { o: x, h: x * 1.001, l: x * 0.999, c: x, v: 100.0 });
             }
             let last = prefix.last().unwrap().c;
-            Case { cfg: cfg_small(kind, n), scalar, prefix, zv: vec![], level: X(last), vol: X(100.0), flat_len: 300, neg_zero_mask: 0, gen_prefix: None }
+            Case { cfg: cfg_small(kind, n), scalar, prefix, zv: vec![], level: X(last), vol: X(100.0), flat_len: 300, neg_zero_mask: 0, gen_prefix: None, reset_before_flat: false }
         },
         &check,
     );
